@@ -27,7 +27,8 @@ LEVEL = "fault_enumeration"
 RULE = ("one run = (platform {Ledger, SGX}, command {onboard, unlock, changepin, pubkeys}, device state "
         "{mode bootloader / signer / ui-heartbeat / foreign app, onboarded y/n, echo ok/altered}, operator "
         "script {PIN valid / too short / digits only / non-alphanumeric / none, on argv or typed after "
-        "0..2 invalid attempts, --anypin, answers yes / no / other-then-yes / other-then-no, --nounlock, "
+        "0..2 invalid attempts (incl. letters / digits outside ASCII), --anypin, answers yes / no / "
+        "other-then-yes / other-then-no / 3..5 non-answers then no or EOF, --nounlock, "
         "--noexec}); enumerated: the full product of the enum dimensions; seeded: PIN strings and "
         "entropy; non-trivial = at least one APDU reached the device; distinct = the scenario tuple")
 TIERS = {"quick": {"runs": 20000, "wall": 240}, "thorough": {"runs": 400000, "wall": 3000}}
